@@ -50,6 +50,14 @@ fn main() {
             }
             println!("OK replay passes");
         }
+        "mirirun" => {
+            // evv mirirun <Cxx> <n>: n generated cases on the calling thread (meant to run under
+            // `cargo +nightly miri run`): Miri reports undefined behaviour in the library's unsafe
+            // code, the engines report semantic violations.
+            let n: u32 = args[3].parse().unwrap_or(100);
+            let code = evv::checks::mirirun(prop, n, seed);
+            std::process::exit(code);
+        }
         "shrink" => {
             // evv shrink <Cxx> <vec replay file>: greedy deletion shrinking, prints the smaller case
             let path = std::path::Path::new(&args[3]);
